@@ -280,6 +280,15 @@ def check_rule(case, ctx):
     _bucket(ctx, "dx/tol", dx, tol_x)
     _bucket(ctx, "dw/tol", dw, tol_w)
     _bucket(ctx, "asym/4ulp", asym, 4 * ulp)
+    # the arrays returned are the caller's: he rescales them in place (x *= f; x += c) and asks for the rule again
+    x0, w0 = x.copy(), w.copy()
+    x *= 3.0
+    x += 1.0
+    w[...] = 0.0
+    x2, w2 = must(gauleg, arg_a, arg_b, n)
+    require(np.array_equal(x2, x0) and np.array_equal(w2, w0), "gauleg(%r,%r,%d) asked again after the caller modified the "
+            "arrays it had returned: nodes %r weights %r, the first call gave %r %r", a, b, n, x2[:3].tolist(),
+            w2[:3].tolist(), x0[:3].tolist(), w0[:3].tolist())
 
 
 def classify_rule(case):
